@@ -58,12 +58,16 @@ RULES = {
     "literal - `array[0::2] + 1j * array[1::2]` instead of `array.view(np.complex64)` gives NaN real parts for infinite or NaN imaginary "
     "components and loses the sign of -0.0, so the proto-backed tensor disagrees with its own bytes and the reference decoder (bit "
     "operations - shifts, masks - are packing and are covered by R3/R4/R6)",
+    "R17": "tofile() writes through the object it was given: wherever a tensor class (or a helper it hands its file to) calls "
+    "`<x>.tofile(<f>)`, `<f>` is the file parameter itself - never a layer below it (`file.raw`, `getattr(file, 'raw', file)`, "
+    "`file.buffer`, a descriptor): numpy flushes, tells and seeks the object it gets, so below a BufferedWriter it skips the pending "
+    "bytes and writes at the descriptor's offset instead of the file's position - a header written just before ends up after the tensor",
     "R15": "every array that a Tensor stores has been given its ml_dtypes view: in Tensor.__init__ the statement that turns a numpy "
     "scalar (or another array-like) into an array (`value = np.array(value)` / `np.asarray`) comes before the statement that applies "
     "`_maybe_view_np_array_with_ml_dtypes` - as an alternative arm of it (`elif isinstance(value, np.generic)`) or after it, the "
     "0-d array keeps its carrier type (uint16 / uint8 / int8) and numpy() returns bit patterns instead of bfloat16 / float8 / int4 values",
 }
-FLOORS = {"R1": 120, "R2": 4, "R3": 8, "R4": 1, "R5": 6, "R6": 20, "R7": 30, "R8": 4, "R9": 2, "R10": 1, "R11": 1, "R12": 3, "R13": 1, "R14": 8, "R15": 1, "R16": 12}
+FLOORS = {"R1": 120, "R2": 4, "R3": 8, "R4": 1, "R5": 6, "R6": 20, "R7": 30, "R8": 4, "R9": 2, "R10": 1, "R11": 1, "R12": 3, "R13": 1, "R14": 8, "R15": 1, "R16": 12, "R17": 4}
 EXPLANATION = (
     "Evaluates the enum and table literals of _enums/_core/tensor_adapters with ast only and compares them with "
     "each other; derives the sub-byte classes from _BITWIDTH_MAP and checks every storage guard, packing-helper "
@@ -1279,7 +1283,43 @@ def rule_r16(ctx):
     ctx.require(n >= 12, f"only {n} decoding methods of tensor classes found")
 
 
+def rule_r17(ctx):
+    n = 0
+    work, seen = [], set()
+    for m in ctx.repo.pkg_modules():
+        for k in m.classes.values():
+            f = k.methods.get("tofile")
+            if f is not None and not isinstance(f.node, ast.Lambda) and len(f.params) >= 2:
+                work.append((f, f.params[1]))
+    while work:
+        f, fp = work.pop()
+        if (f.key, fp) in seen:
+            continue
+        seen.add((f.key, fp))
+        for c in calls_in(f):
+            if isinstance(c.func, ast.Attribute) and c.func.attr == "tofile" and c.args:
+                a = c.args[0]
+                n += 1
+                ok = isinstance(a, ast.Name) and a.id == fp
+                ctx.check("R17", f"{f.local}: `{norm(c)[:50]}` writes through the file object it was given", ok, f, c,
+                          f"`{norm(a)[:60]}` is handed to tofile() instead of the file parameter `{fp}`: numpy then works on a layer below the caller's file object "
+                          "(no flush of its pending bytes, position of the descriptor instead of the object's) - the bytes land at another offset than the "
+                          "caller's position, so tofile() and tobytes() disagree about what is in the file",
+                          how="argument of every <x>.tofile(…) in the tofile methods of the tensor classes and the helpers they pass the file to",
+                          construct=f"tofile through {norm(a)[:40]}")
+            else:
+                # a private helper of the same module that is handed the file
+                d = dotted_of(c.func) or ""
+                g = f.module.functions.get(d) if d and "." not in d else None
+                if g is not None and not isinstance(g.node, ast.Lambda):
+                    for i, a in enumerate(c.args):
+                        if isinstance(a, ast.Name) and a.id == fp and i < len(g.params):
+                            work.append((g, g.params[i]))
+    ctx.require(n >= 4, f"only {n} tofile() calls found in the tofile methods of the tensor classes")
+
+
 def run(ctx):
+    rule_r17(ctx)
     rule_r16(ctx)
     rule_r15(ctx)
     rule_r14(ctx)
